@@ -17,6 +17,12 @@ CHECKS = {
  'C03': dict(cat='exploration', tech='validator-driven exhaustive enumeration of all valid function bodies up to N instructions, lockstep vs reference interpreter',
     text='A depth-first generator with the spec validation algorithm (operand stack with Unknown, control frames, polymorphic dead code) enumerates EVERY valid function body of <= N instructions over a 33-symbol alphabet (blocks/loops/ifs with and without results, br/br_if/br_table/return/unreachable, select, drop, locals, a logging host call), a 13-symbol control alphabet (deeper N) and typed alphabets (i64/f32/f64 carried values, locals of all four types in several declaration groupings). Quick: N<=4 / 6 / 4 (about 40 000 bodies), thorough: N<=5 / 8 / 5 (about 1.2 million bodies); every body runs on every input vector; value, trap and ordered host-call trace are compared with the reference.',
     note='Complete for the stated N and alphabets, silent beyond. Trusts the C compiler and the reference interpreter (spec-suite validated).', ref='§2 C03'),
+ 'C04': dict(cat='exploration', tech='exhaustive enumeration of module shapes (call graph x signature x table configuration), lockstep vs reference interpreter with host-call traces',
+    text='One module per shape: 7 callee signatures x direct/call_indirect x imported/defined callee x 0-2 preceding imports x 0-2 preceding definitions x 0-2 extra operands below the arguments (756 shapes, thorough), indirect calls through defined and imported tables filled at constant and imported-global offsets, element placement probed through every slot, self/mutual recursion directly and through the table, and import names stressing C symbol mangling. Every call is observable through the ordered host-call trace (callee identity, arguments in order, calling instance) which must equal the reference interpreter\'s.',
+    note='Shapes outside the product (more than 3 functions per kind, other signatures) are not covered. Table indices stay inside initialised ranges with matching signatures (w2c2 does not check them by design).', ref='§2 C04'),
+ 'C05': dict(cat='model_checking', engine='lockstep-bfs', tech='explicit-state BFS over operation histories on the real translated code with canonical-state deduplication, reference model in lockstep',
+    text='(a) every load/store flavour x static offset x base address x value with all memory bytes compared after each store (ASan build); (b) breadth-first search over histories of a 50-operation alphabet (stores, memory.grow by 0/1/2/3/65535/65536/2^32-1, size, fill, copy overlapping in both directions, init, data.drop, loads) for 6 memory declarations incl. (0,0) and (1,65536): a state is the history reaching it, deduplicated by (pages, all bytes, dropped flag); every transition runs the real translated code on a fresh instance next to the reference model and compares result, trap, pages and every byte. Quick depth 3, thorough depth 5.',
+    note='The reference caps growth at 65535 pages (a resource limit the spec permits; the runtime keeps the byte size in 32 bits). Address wrap-around cannot be observed under the in-bounds precondition. Trusts the reference interpreter (spec-suite validated).', ref='§2 C05'),
 }
 
 def main():
@@ -44,6 +50,7 @@ def main():
                   'source_commits': [], 'add_only': True},
         'engines': [
             {'name': 'lockstep', 'path': 'lib/batch.py + ref/lockstep.h + ref/wasmref.c', 'serves_properties': ['C01'], 'kind_free_text': 'bounded-exhaustive enumeration of (program, input); real pipeline w2c2 -> C compiler -> run, stepped in lockstep with an own reference interpreter'},
+            {'name': 'lockstep-bfs', 'path': 'ref/lockstep.h (ls_main_bfs) + lib/batch.py', 'serves_properties': [], 'kind_free_text': 'explicit-state breadth-first search over operation histories; each transition re-executes the history on a fresh implementation instance and a fresh reference instance; states deduplicated by a hash of the observable state'},
         ],
         'checks': checks,
         'not_applicable': na,
